@@ -16,7 +16,11 @@ META = dict(
          "integers are 32 bit) and Allowed(kind, options, document, source) = the set of outcomes {error, exact value, "
          "anything-but-panic} the statement permits. TLC enumerates every (shape, options, document) of the bounded "
          "catalogue (single fields of all 15 kinds x 19 option sets x 60 literals x pointer x typed/text source; "
-         "pairs, embedded, slices, maps, nested structs, inherit, client->server round trips with strings that URLs / "
+         "pairs, embedded, slices, maps, nested structs, inherit, container shapes = every word over slice-of / "
+         "map[string]-of / pointer-to with one or two container levels around an element kind x document trees in which "
+         "one node at any depth is replaced by a scalar / bool / string / null / list / object (ShapeAllowed: exact "
+         "elements, an ill-typed node must fail, null = no panic) x {structure, JSON text in a string member, JSON text "
+         "as form / path / header value}, client->server round trips with strings that URLs / "
          "queries / headers / JSON must escape, round trips whose members carry range= (the four bracket combinations), "
          "options=, optional, default= and `,string` with client values on / next to / off the bounds, and two-call cases: same type and document twice, slices with "
          "default=[..] included, the caller editing the first result in place in between), checks the sanity "
@@ -35,7 +39,12 @@ META = dict(
          "the document's value or an error), zero-padded decimal strings (\"010\": refused or the decimal reading 10, "
          "never 8), Go-syntax spellings (\"0x1F\", \"0b11\", \"0o17\", \"1_000\": refused or the number the spelling "
          "denotes, because the statement does not fix the numeric syntax of text values; float kinds: no panic only), "
-         "a default outside the field's own range=/options= (contradictory tag: the default or an error). Only "
+         "a default outside the field's own range=/options= (contradictory tag: the default or an error), "
+         "a container written as JSON text inside a string member of a typed document, and a nesting of two container "
+         "levels written into one form / path / header value (the statement does not say how these are written; a "
+         "one-level container in a text source has no other spelling and must be taken; in every spelling an ill-typed "
+         "or non-fitting element must fail and nothing may panic), an empty list / object into a pointer-to-container "
+         "(nil pointer or pointer to the empty container). Only "
          "panic-freedom is checked for null, a bare number or unit-less numeric string into a Duration, a number "
          "into a string field, 0/1 into a bool. Not claimed: JSON = YAML for null / empty YAML values (the YAML "
          "bridge hands them on as the string \"\", inherited behaviour) and for 1e400 (a string in YAML); Duration "
@@ -46,6 +55,9 @@ META = dict(
          "member outside its own options=/range= must make the round trip fail on either side, except an optional "
          "member held at its zero value (the client may leave it out: equal struct, or send it: error); map keys that conf's key canonicalisation would rewrite; range bounds "
          "beyond small integers (the code compares in float64); optional=dep, embedded optional structs, arrays, "
+         "container shapes with three or more container levels, pointer to pointer, map keys other than string, tag options "
+         "other than optional on a nested container member, a header sent with several values (the parser then hands on a "
+         "[]string instead of text), "
          "TextUnmarshaler fields, multipart forms, conf.Load from files / env expansion; in the round trip '/', '.', "
          "'..', the empty string and control characters as path / header values (the part cannot carry them); in the "
          "two-call family aliasing between a caller-supplied map and the result (every call gets a freshly rendered "
@@ -68,7 +80,9 @@ FINISH = dict(rule="cases = complete TLC enumeration (one initial state per case
                    "json in turn) over every numeric kind, string, bool x {plain, optional, default, range [..] (..) [..) (..], "
                    "options, optional+range, optional+options, default+range, default+options, `,string`, pointer} x values "
                    "on, next to and off the bounds while the other three members share one valid or outside value; deep: all typed APIs and the three conf spellings on "
-                   "[][]T, []map[string]T, map[string][]T, [][]map[string]T, []*T with a null first element; history: conf.Load* first, then UnmarshalJsonBytes, UnmarshalKey, "
+                   "[][]T, []map[string]T, map[string][]T, [][]map[string]T, []*T with a null first element; shapes: all typed APIs "
+                   "and the three conf spellings (structure and string member), ParseForm / Parse / ParsePath / ParseHeaders "
+                   "(JSON text) on the 40 type words x element kinds x replaced-node documents; history: conf.Load* first, then UnmarshalJsonBytes, UnmarshalKey, "
                    "UnmarshalYamlBytes, httpx.Parse with a JSON body on keys spelt snake_case / Upper-initial / mixed / "
                    "lowerCamel; twice: every typed API called twice with the same document, the first "
                    "result edited in place and appended to in between) twice in seeded random order; steps = API calls judged")
@@ -154,6 +168,20 @@ def plans(ctx):
         out.append(("deep", [job("deep-%d" % i, "deep", Q(g), Q(["req", "opt", "def", "rcc", "options", "str"]),
                                  lits("5", "300", "-1", "abc", "true", "1.5", "null", "10s", '""'), kinds2=deep_shapes)
                              for i, g in enumerate(split_kinds(allk, 3))]))
+    # container shapes: every word over S (slice of) / M (map[string] of) / P (pointer to) with one or two container
+    # levels around an element kind x documents = the canonical tree with one node (at any depth, alone / before /
+    # after a well-typed sibling) replaced by a scalar, bool, string, null, [] {} [g] {..} [[g]] ... x the three ways
+    # the document reaches the member (structure, JSON text in a string member, JSON text as form / path / header value)
+    if ctx.quick:
+        shk = {"tree": ["int8", "string", "bool"], "jstr": ["int8"], "text": ["int8", "string"]}
+        shl = lits("5", "300", "abc", "true", "null", "1.5")
+    else:
+        # (the element kinds in full are the business of the flat slice / map families; here every class of kind)
+        shk = {"tree": ["int8", "int32", "int64", "uint8", "uint64", "uint", "float32", "float64", "string", "bool", "duration"],
+               "jstr": ["int8", "float32", "string", "duration"], "text": ["int8", "uint64", "string", "bool"]}
+        shl = lits("0", "5", "300", "-1", "abc", "true", "null", "1.5", '"10"', "10s", '""', "2^64-1")
+    out.append(("shapes", [job("shapes-%s-%s" % (fm, k), "shapes", Q([k]), Q([fm]), shl, kinds2=Q(["c1", "c2"]))
+                           for fm in ("tree", "jstr", "text") for k in shk[fm]]))
     # single: all kinds x all option sets x pointer x both source classes (this run is also the model
     # check of the relation); quick leaves out the mid-range boundary literals, thorough offers all 60
     if ctx.quick:
@@ -273,6 +301,14 @@ def run(ctx):
             continue
         if not bad and (vals == 0 or (errs == 0 and not rtfam)):
             raise core.Infra("family %s: vacuous replay (accepted=%d rejected=%d)" % (fam, vals, errs))
+        if fam == "shapes" and not bad:
+            # every class of shape must have produced values (well-typed documents accepted) on every source class
+            # it was offered on: otherwise "error for everything" would pass as panic-freedom
+            empty = sorted(k[len("shapes.cases."):] for k, v in cnt.items()
+                           if k.startswith("shapes.cases.") and v and not cnt.get("shapes.val." + k[len("shapes.cases."):], 0))
+            if empty:
+                raise core.Infra("family shapes: vacuous replay, no document accepted for %s" % empty)
+            ctx.notes["shape_classes"] = len([k for k in cnt if k.startswith("shapes.cases.") and k.endswith(".typed")])
         if rtfam:
             rt = {k[len("rt.%s." % fam):]: v for k, v in cnt.items() if k.startswith("rt.%s." % fam)}
             ctx.notes.setdefault("roundtrip_outcomes", {})[fam] = rt
